@@ -2,6 +2,7 @@
 from __future__ import annotations
 
 import ast
+import os
 from typing import Dict, List, Optional, Tuple
 
 from ..model import AnalysisError, FuncInfo, Program, dotted, own_nodes, unparse
@@ -31,6 +32,8 @@ def dtype_of(fi: FuncInfo, ff, stmt, e: ast.AST, depth: int = 0) -> str:
     """'int' | 'float' | 'unknown' for the (resolved) array expression e."""
     if depth > 10:
         return "unknown"
+    if depth == 0:
+        e = unitem(e)
     D = lambda x: dtype_of(fi, ff, stmt, x, depth + 1)
     if isinstance(e, ast.Constant):
         if isinstance(e.value, bool):
@@ -111,6 +114,40 @@ def is_frexp_weight(e: ast.AST, arg_text: Optional[str] = None) -> Optional[str]
     return None
 
 
+class _WNorm(ast.NodeTransformer):
+    def visit_BinOp(self, n):
+        self.generic_visit(n)
+        x = is_frexp_weight(n)
+        if x is not None:
+            return ast.copy_location(ast.Call(func=ast.parse("Scaling.weights_from_nominal_values", mode="eval").body, args=[n.right.value.args[0]], keywords=[]), n)
+        return n
+
+
+_PLAIN_W = [False]
+
+
+def wnorm(e: ast.AST) -> ast.AST:
+    """spell the expanded weight `1 - np.frexp(X)[1]` as the call Scaling.weights_from_nominal_values(X) it is equal to (only once
+    that method has been found to BE this expression), so that a caller may use either."""
+    if not _PLAIN_W[0] or e is None:
+        return e
+    import copy as _copy
+    return ast.fix_missing_locations(_WNorm().visit(unitem(_copy.deepcopy(e))))
+
+
+class _WFacts:
+    """facts of a function with every resolved expression spelled through wnorm"""
+
+    def __init__(self, ff):
+        self._ff = ff
+
+    def __getattr__(self, k):
+        return getattr(self._ff, k)
+
+    def resolved(self, stmt, e):
+        return wnorm(self._ff.resolved(stmt, e))
+
+
 def _rc(idx: ast.AST) -> Optional[str]:
     """'row' / 'col' if idx is <coo>.row[k] / <coo>.col[k]."""
     if isinstance(idx, ast.Subscript) and isinstance(idx.value, ast.Attribute) and idx.value.attr in ("row", "col"):
@@ -130,6 +167,7 @@ def run(prog: Program, rep, tier: str) -> None:
         raise AnalysisError("weights_from_nominal_values: expected a single return")
     v = ff.resolved(rs[0], rs[0].value)
     x = is_frexp_weight(v)
+    _PLAIN_W[0] = x is not None and x == p0
     if x is not None:
         rep.check(x == p0, "nominal-weights", w.qualname, short(rs[0]), "weight = 1 - frexp(value).exponent", w.loc(rs[0]))
     elif np_call(v, "where") and len(v.args) == 3:
@@ -148,7 +186,7 @@ def run(prog: Program, rep, tier: str) -> None:
     r = returns_of(fn)
     ok = False
     if len(r) == 1:
-        vv = ffn.resolved(r[0], r[0].value)
+        vv = wnorm(ffn.resolved(r[0], r[0].value))
         ps = fn.params
         if isinstance(vv, ast.Call) and dotted(vv.func) == "Scaling":
             from .common import bind_args
@@ -167,14 +205,14 @@ def grad_jac(prog: Program, rep, sc) -> None:
     stored entries of that row of ldexp(|data|, -var_weights[col]) - accumulated in a loop over all entries, either as
     M[row] = max(M[row], e) or as `if e > M[row]: M[row] = e`; without one: an empty integer weight vector."""
     m = sc.methods["from_grad_jac"]
-    ff = facts_for(m)
+    ff = _WFacts(facts_for(m))
     g, j = m.params[:2]
     W = "Scaling.weights_from_nominal_values"
     Wg = f"{W}(np.abs({g}))"
     jt = f"{j}.tocoo()"
     sites = []
     for r in returns_of(m):
-        v = ff.resolved(r, r.value)
+        v = wnorm(ff.resolved(r, r.value))
         if not (isinstance(v, ast.Call) and dotted(v.func) == "Scaling" and len(v.args) == 2 and not v.keywords):
             raise AnalysisError("from_grad_jac does not return Scaling(var_weights, cons_weights)")
         sites.append((r, v))
@@ -223,13 +261,13 @@ def grad_jac(prog: Program, rep, sc) -> None:
             seqs = [(tgt, z)]
         for el, src in seqs:
             if isinstance(el, ast.Name):
-                txt = U(env.get(el.id, el))
+                txt = U(wnorm(env.get(el.id, el)))
                 if U(src) == f"{jt}.row":
                     row_txts.add(txt)
                 if np_call(src, "ldexp"):
                     ent_txts.add((txt, U(src)))
         if kname is not None:
-            ktxt = U(env.get(kname, ast.Name(id=kname)))
+            ktxt = U(wnorm(env.get(kname, ast.Name(id=kname))))
             row_txts.add(f"{jt}.row[{ktxt}]")
             # entries addressed as prescaled[k]
             for n_ in ast.walk(st):
@@ -250,14 +288,27 @@ def grad_jac(prog: Program, rep, sc) -> None:
             e_txt = U(ff.resolved(st, other))
     else:
         e_txt = U(val)
-        guard = any(f[0] == "<" and f[2] == e_txt and (f[1].endswith(f"[{idx_txt}]")) for f in s0.facts)
+        def ntext(t):
+            try:
+                return U(wnorm(ast.parse(t, mode="eval").body)) if t else t
+            except SyntaxError:
+                return t
+        guard = any(f[0] == "<" and ntext(f[2]) == e_txt and (ntext(f[1]).endswith(f"[{idx_txt}]")) for f in s0.facts)
         acc_ok = acc_ok and guard
+    if os.environ.get("PGF_DEBUG"):
+        print("DEBUG c20", dict(idx_txt=idx_txt, row_txts=row_txts, ent_txts=ent_txts, e_txt=e_txt, facts=s0.facts))
     pres = [p for t, p in ent_txts if t == e_txt]
     pres_ok = False
     if pres:
         pe = ast.parse(pres[0], mode="eval").body
         exps = (f"{Wg}[{jt}.col]", f"--{Wg}[{jt}.col]", f"-(-{Wg})[{jt}.col]", f"(-(-{Wg}))[{jt}.col]")
         pres_ok = np_call(pe, "ldexp") and len(pe.args) == 2 and U(pe.args[0]) == f"np.abs({jt}.data)" and U(pe.args[1]) in exps
+        if np_call(pe, "ldexp") and len(pe.args) == 2 and isinstance(pe.args[1], ast.Subscript) and not pres_ok:
+            # -(-W) is W, however it is parenthesised
+            b_ = pe.args[1].value
+            while isinstance(b_, ast.UnaryOp) and isinstance(b_.op, ast.USub) and isinstance(b_.operand, ast.UnaryOp) and isinstance(b_.operand.op, ast.USub):
+                b_ = b_.operand.operand
+            pres_ok = U(pe.args[0]) == f"np.abs({jt}.data)" and U(b_) == Wg and U(pe.args[1].slice) == f"{jt}.col"
         rep.extra["gradjac_prescale"] = pres[0][:160]
     acc_ok = acc_ok and bool(pres)
     # the loop visits every stored entry
@@ -469,6 +520,18 @@ def scale_symmetric_rule(prog: Program, rep) -> None:
                     e = defs[0].stmt.value
                     continue
             break
+        def deref(x):
+            for _ in range(3):
+                if isinstance(x, ast.Name) and not same(x.id, W):
+                    ds = [d for d in inloop if isinstance(d.stmt, ast.Assign) and len(d.stmt.targets) == 1 and U(d.stmt.targets[0]) == x.id and d.index < q.index]
+                    if len(ds) == 1:
+                        x = ds[0].stmt.value
+                        continue
+                break
+            return x
+        if isinstance(e, ast.BinOp) and isinstance(e.op, ast.Add):
+            # the two shifts may be held in temporaries
+            e = ast.copy_location(ast.BinOp(left=deref(e.left), op=e.op, right=deref(e.right)), e)
         if tb is not None and same(tb, data) and isinstance(e, ast.BinOp) and isinstance(e.op, ast.Add) and isinstance(e.left, ast.Subscript) and isinstance(e.right, ast.Subscript) \
                 and base_name(e.left.value) and base_name(e.right.value) and same(e.left.value.id, W) and same(e.right.value.id, W):
             if whole(tg):
